@@ -398,7 +398,15 @@ def _run(D):
         outcome = 'sut_abort'
     else:
         outcome = None
-        if raised is not None:
+        o5 = isinstance(raised, (TypeError, ArithmeticError, ValueError)) and any(
+            x < p_['bounds'][0] or x > p_['bounds'][1] for c in w.calls[first_calls:] for x, p_ in zip(c.vector, w.params))
+        if o5:
+            # observation O5 (DESIGN.md 8), the rule of runfam.judge_abort: a design sampled onto the precision grid may exceed
+            # a bound by less than half the precision (legal), SBX / PM of such a parent can raise (complex power, 0.0 ** negative)
+            # and the run dies - no listed property promises a result there, C06 speaks of failing *objectives* only
+            outcome = 'sut_abort'
+            ctx.probe('o5_precision_overshoot_crash')
+        elif raised is not None:
             ctx.violation('unexpected_exception', site, '%s run raised %r although no design failed five times' % (kind, raised))
     ctx.sample = {'family': 'run', 'algorithm': kind, 'N': N, 'G': G, 'workers': workers, 'fail': fail,
                   'failed_calls': len(order), 'calls': len(w.calls), 'n': w.n, 'm': w.m, 'box': w.boxkind}
